@@ -150,7 +150,7 @@ func orderSensitivity(pk *packages.Package, fnBody *ast.BlockStmt, rs *ast.Range
 				return true
 			}
 			if f := callee(pk, call); f != nil && f.Pkg() != nil && (f.Pkg().Path() == "sort" || f.Pkg().Path() == "slices") && len(call.Args) >= 1 {
-				if id, ok := ast.Unparen(call.Args[0]).(*ast.Ident); ok && pk.TypesInfo.Uses[id] == obj {
+				if id, ok := ast.Unparen(call.Args[0]).(*ast.Ident); ok && pk.TypesInfo.Uses[id] == obj && totalOrderSort(pk, call, obj) {
 					found = true
 				}
 			}
@@ -1055,6 +1055,77 @@ func writtenThrough(pk *packages.Package, id *ast.Ident, stack []ast.Node) bool 
 		default:
 			return false
 		}
+	}
+	return false
+}
+
+// totalOrderSort: the sort call puts the slice into an order that does not depend on the order it had before: the
+// natural order of its elements (sort.Strings, sort.Ints, slices.Sort ...), or a comparison function that compares the
+// two elements themselves (`return s[i] < s[j]`). A comparison of something computed from the elements (their lower-case
+// form, their length, one field) leaves elements that compare equal in the order in which they came - for keys
+// collected from a map, the order of the map iteration.
+func totalOrderSort(pk *packages.Package, call *ast.CallExpr, slice types.Object) bool {
+	f := callee(pk, call)
+	if f == nil {
+		return false
+	}
+	switch f.Name() {
+	case "Strings", "Ints", "Float64s", "Sort", "Stable":
+		if f.Pkg().Path() == "slices" || len(call.Args) == 1 {
+			return f.Name() != "Stable" || f.Pkg().Path() == "slices" || len(call.Args) == 1
+		}
+		return true
+	case "Slice", "SliceStable", "SortFunc", "SortStableFunc":
+		if len(call.Args) != 2 {
+			return false
+		}
+		fl, ok := ast.Unparen(call.Args[1]).(*ast.FuncLit)
+		if !ok || len(fl.Body.List) != 1 {
+			return false
+		}
+		ret, ok := fl.Body.List[0].(*ast.ReturnStmt)
+		if !ok || len(ret.Results) != 1 {
+			return false
+		}
+		// the parameters of the comparison
+		params := map[types.Object]bool{}
+		for _, fld := range fl.Type.Params.List {
+			for _, nm := range fld.Names {
+				params[pk.TypesInfo.Defs[nm]] = true
+			}
+		}
+		isElem := func(e ast.Expr) bool {
+			e = ast.Unparen(e)
+			if ix, ok := e.(*ast.IndexExpr); ok {
+				sid, ok1 := ast.Unparen(ix.X).(*ast.Ident)
+				iid, ok2 := ast.Unparen(ix.Index).(*ast.Ident)
+				return ok1 && ok2 && pk.TypesInfo.Uses[sid] == slice && params[pk.TypesInfo.Uses[iid]]
+			}
+			if id, ok := e.(*ast.Ident); ok { // slices.SortFunc(a, b T)
+				return params[pk.TypesInfo.Uses[id]]
+			}
+			return false
+		}
+		basic := func(e ast.Expr) bool {
+			t := pk.TypesInfo.TypeOf(e)
+			if t == nil {
+				return false
+			}
+			_, ok := t.Underlying().(*types.Basic)
+			return ok
+		}
+		switch x := ast.Unparen(ret.Results[0]).(type) {
+		case *ast.BinaryExpr:
+			if (x.Op == token.LSS || x.Op == token.GTR) && isElem(x.X) && isElem(x.Y) && basic(x.X) {
+				return true
+			}
+		case *ast.CallExpr:
+			// cmp.Compare(a, b) / strings.Compare(a, b) on the elements themselves
+			if g := callee(pk, x); g != nil && g.Name() == "Compare" && len(x.Args) == 2 && isElem(x.Args[0]) && isElem(x.Args[1]) && basic(x.Args[0]) {
+				return true
+			}
+		}
+		return false
 	}
 	return false
 }
